@@ -342,6 +342,167 @@ func init() {
 		}
 		c.ret(c.m.rvGet(r))
 	})
+	// ---- maps (the executor's maps are association lists, so reflection over them needs no addressability model) ----
+	mapOf := func(c *stubCtx, what string) (*RVal, *MapObj, *types.Map, bool) {
+		r := rvOf(c.args[0])
+		if r == nil {
+			c.m.reflectPanic(c, "reflect: call of reflect.Value."+what+" on zero Value")
+			return nil, nil, nil, false
+		}
+		mt, ok := r.T.Underlying().(*types.Map)
+		if !ok {
+			c.m.reflectPanic(c, "reflect: call of reflect.Value."+what+" on "+kindOf(r.T).String()+" Value")
+			return nil, nil, nil, false
+		}
+		mp, _ := c.m.rvGet(r).(*MapObj)
+		return r, mp, mt, true
+	}
+	liveEntries := func(c *stubCtx, mp *MapObj, label string) []*MapEntry {
+		var live []*MapEntry
+		if mp != nil {
+			for _, e := range mp.E {
+				if e.Live {
+					live = append(live, e)
+				}
+			}
+		}
+		if c.m.Cfg.Opts["maporder"] == "all" && len(live) >= 2 && len(live) <= 4 {
+			perms := permutations(len(live))
+			p := perms[c.m.choose(len(perms), nil, false, label+"@"+c.m.pos(c.ins))]
+			ord := make([]*MapEntry, len(live))
+			for k, j := range p {
+				ord[k] = live[j]
+			}
+			live = ord
+		} else if len(live) >= 2 {
+			c.m.Res.Assumptions["map iteration follows insertion order (Go leaves it unspecified)"] = true
+		}
+		return live
+	}
+	add("(reflect.Value).MapKeys", func(c *stubCtx) {
+		_, mp, mt, ok := mapOf(c, "MapKeys")
+		if !ok {
+			return
+		}
+		live := liveEntries(c, mp, "reflect-mapkeys")
+		if len(live) == 0 {
+			c.ret(Slice{Nil: true})
+			return
+		}
+		cells := c.m.newCells(len(live))
+		for i, e := range live {
+			cells.E[i] = mkRV(&RVal{T: mt.Key(), V: e.K})
+		}
+		c.ret(Slice{C: cells, Len: len(live), Cap: len(live)})
+	})
+	add("(reflect.Value).MapIndex", func(c *stubCtx) {
+		_, mp, mt, ok := mapOf(c, "MapIndex")
+		if !ok {
+			return
+		}
+		k := rvOf(c.args[1])
+		if k == nil {
+			c.m.reflectPanic(c, "reflect: call of reflect.Value.MapIndex with zero key")
+			return
+		}
+		if mp != nil {
+			if e := c.m.mapFind(mp, c.m.rvGet(k), c.ins); e != nil {
+				c.ret(mkRV(&RVal{T: mt.Elem(), V: c.m.copyVal(e.V)}))
+				return
+			}
+		}
+		c.ret(c.m.zeroRV())
+	})
+	add("(reflect.Value).SetMapIndex", func(c *stubCtx) {
+		_, mp, mt, ok := mapOf(c, "SetMapIndex")
+		if !ok {
+			return
+		}
+		if mp == nil {
+			c.m.reflectPanic(c, "assignment to entry in nil map")
+			return
+		}
+		k, v := rvOf(c.args[1]), rvOf(c.args[2])
+		if k == nil {
+			c.m.reflectPanic(c, "reflect: call of reflect.Value.SetMapIndex with zero key")
+			return
+		}
+		if v == nil {
+			c.m.mapDelete(mp, c.m.rvGet(k))
+			c.ret(nil)
+			return
+		}
+		if !types.AssignableTo(v.T, mt.Elem()) {
+			c.m.reflectPanic(c, "reflect.Value.SetMapIndex: value of type "+v.T.String()+" is not assignable to type "+mt.Elem().String())
+			return
+		}
+		val := c.m.rvGet(v)
+		if _, isI := mt.Elem().Underlying().(*types.Interface); isI {
+			if _, srcI := v.T.Underlying().(*types.Interface); !srcI {
+				val = Iface{T: v.T, V: val}
+			}
+		}
+		c.m.mapStore(mp, c.m.rvGet(k), val)
+		c.ret(nil)
+	})
+	type mapIter struct {
+		order []*MapEntry
+		pos   int
+		mt    *types.Map
+	}
+	add("(reflect.Value).MapRange", func(c *stubCtx) {
+		_, mp, mt, ok := mapOf(c, "MapRange")
+		if !ok {
+			return
+		}
+		box := c.m.newCells(1)
+		box.E[0] = &Opaque{Tag: "mapiter", X: &mapIter{order: liveEntries(c, mp, "reflect-maprange"), pos: -1, mt: mt}}
+		c.ret(Ptr{box, 0})
+	})
+	iterOf := func(c *stubCtx) *mapIter {
+		p, ok := c.args[0].(Ptr)
+		if !ok || p.C == nil {
+			return nil
+		}
+		o, ok := p.C.E[p.I].(*Opaque)
+		if !ok || o.Tag != "mapiter" {
+			return nil
+		}
+		return o.X.(*mapIter)
+	}
+	add("(*reflect.MapIter).Next", func(c *stubCtx) {
+		it := iterOf(c)
+		if it == nil {
+			panic(unsupported("reflect.MapIter not created by MapRange"))
+		}
+		for {
+			it.pos++
+			if it.pos >= len(it.order) {
+				c.ret(smt.False)
+				return
+			}
+			if it.order[it.pos].Live {
+				c.ret(smt.True)
+				return
+			}
+		}
+	})
+	add("(*reflect.MapIter).Key", func(c *stubCtx) {
+		it := iterOf(c)
+		if it == nil || it.pos < 0 || it.pos >= len(it.order) {
+			c.m.reflectPanic(c, "MapIter.Key called before Next")
+			return
+		}
+		c.ret(mkRV(&RVal{T: it.mt.Key(), V: it.order[it.pos].K}))
+	})
+	add("(*reflect.MapIter).Value", func(c *stubCtx) {
+		it := iterOf(c)
+		if it == nil || it.pos < 0 || it.pos >= len(it.order) {
+			c.m.reflectPanic(c, "MapIter.Value called before Next")
+			return
+		}
+		c.ret(mkRV(&RVal{T: it.mt.Elem(), V: c.m.copyVal(it.order[it.pos].V)}))
+	})
 	add("(reflect.Value).Call", func(c *stubCtx) { c.m.reflectCall(c) })
 	add("reflect.FuncOf", func(c *stubCtx) {
 		var ins, outs []*types.Var
